@@ -209,6 +209,8 @@ def _phase(draw, ids, in_subtest, strict, simple=False):
   dims = [name for name in meas if name not in cv and not any(b['sets'].get(name) in ('x', 'px') for b in script) and draw(st.integers(0, 4)) == 0]
   if dims:
     node['dims'] = dims
+  if not simple and draw(st.integers(0, 11)) == 0:
+    node['callable'] = draw(st.sampled_from(['partial', 'instance']))
   return node
 
 
@@ -549,6 +551,16 @@ def _mk_body(node, ctx, htf):
     return getattr(htf.PhaseResult, end)
 
   body.__name__ = 'p%d' % pid
+  kind = node.get('callable')
+  if kind == 'partial':
+    # the phase is handed over as functools.partial(function, ...): a callable without __name__
+    def body_with_extra(test, vf_extra=None, **plugs):
+      return body(test, **plugs)
+    body_with_extra.__name__ = 'p%d' % pid
+    return functools.partial(body_with_extra, vf_extra=1)
+  if kind == 'instance':
+    # ... or as an instance of a class with __call__ (no __name__ on the instance either)
+    return type('p%d' % pid, (object,), {'__call__': lambda self, test, **plugs: body(test, **plugs)})()
   body.__qualname__ = 'p%d' % pid
   return body
 
